@@ -58,7 +58,7 @@ JOBS = {
                  "accepted (type, wire) pairs"},
     ],
     "C13": [
-        {"module": "MC_OneItem", "spec": "Spec", "invariants": ["InvAccepted", "InvPrefix", "InvSuffix", "InvPrefixFree", "InvProtInner", "Emit"],
+        {"module": "MC_OneItem", "spec": "Spec", "invariants": ["InvAccepted", "InvPrefix", "InvSuffix", "InvPrefixFree", "InvProtInner", "InvProtToVec", "Emit"],
          "quick": {"timeout": 300}, "thorough": {"timeout": 1200},
          "rule": "accepted items of every type x 4 encodings: every cut point, 7 suffixes, byte-vs-Value API agreement in both directions; the "
                  "header map inside a protected bstr likewise; plus every accepted wire of the decode instances (derived); distinct_nontrivial = "
